@@ -534,6 +534,10 @@ def run(ctx):
             ctx.execute("roundtrip", {"kind": "text", "text": t})
     for i in range(ctx.scale(2000, 100000)):
         ctx.execute("roundtrip", {"kind": "text", "text": _rand_text(rng, 30)})
+        if i % 40 == 0:
+            # long texts (a log), mostly multi-byte: more bytes than characters by a factor of 2-4
+            unit = rng.choice(["\xe9", "\u2603", "\U0001f600", "a\xe9", "\u0416\u0443\u043a "])
+            ctx.execute("roundtrip", {"kind": "text", "text": unit * rng.choice([1025, 2049, 4097, 9000]) + _rand_text(rng, 5)})
 
     def rand_json(depth=0):
         r = rng.random()
